@@ -41,8 +41,8 @@ META = {
     "note": "Trusted: Coq kernel, no axioms (Print Assumptions closed); extraction (ExtrOcamlBasic, ExtrOcamlString) + OCaml driver; Ref is the "
             "hand-written formal reading of the property shared with C01; Mech is a hand-written model of dispatcher.cpp / binary_unary.cpp / "
             "ternary.cpp / call_impl.cpp argument loop / assignment.cpp extract_array_indices / simple_assignment.cpp / output_manager.cpp print_value, "
-            "validated only by the differential run; ternary branches are restricted to calls, int literals and nested ?: (C01 finding "
-            "ternary-nonint-branch); struct, string, pointer, float operands are outside CbCore.",
+            "validated only by the differential run; no multi-dimensional element inside a ?: branch (C01 finding ternary-multidim-segv); "
+            "struct, string, pointer, float operands are outside CbCore.",
 }
 
 SWITCHES = ["noshort", "rtl", "twice", "elemcall", "retry"]
@@ -284,7 +284,7 @@ def run(rep):
         "programs on which Ref or Mech reports Undef / out of fuel are not well-formed and are discarded (counted as skip)",
         "main streams stay outside the shapes of the recorded deviations (gen_c03 shapes, gen_core.Opts.avoid_*); reproducer streams aim at them; "
         "every program is judged against Ref first and against Mech (all recorded deviations on) only when it differs from Ref",
-        "branches of ?: are calls, int literals or nested ?: (finding C01-ternary-nonint-branch); a[i] = (c ? x : y) is avoided (C01-elem-assign-ternary)",
+        "no multi-dimensional element inside a branch of ?: (finding C01-ternary-multidim-segv, gen_core.Opts.avoid_ternary_multidim)",
     ]
 
 
